@@ -29,7 +29,7 @@ def cpp_eval(data: bytes, sym: bytes, defined: bool):
 def run(R):
     if not R.build():
         return
-    R.lean(["C20"])
+    R.lean(["C20", "C20Run"])
     quick = R.tier == "quick"
     rng = R.rng
     reqs, meta = [], {}
